@@ -357,6 +357,17 @@ def check(src, out):
     except (SyntaxError, ValueError) as e:
         return ['output does not compile: %s: %s' % (e.__class__.__name__, str(e)[:120])]
     try:
-        return Comparer(p, q).run()
+        problems = Comparer(p, q).run()
     except RecursionError:
         return []
+    # the running interpreter's deviation from the language's comprehension scoping (PEP 709 inlining, CPython 3.12): a name
+    # chosen for a comprehension variable must not be captured by a sibling nested scope unless the source already had that
+    try:
+        before = scopes.pep709_captures(scopes.build(p)[0])
+        after = scopes.pep709_captures(scopes.build(q)[0])
+        if len(after) > len(before):
+            problems = problems + ['PEP 709: the minified names make a nested scope read an inlined comprehension variable %r (the source has %d such captures, the output %d)' % (
+                sorted(after)[:3], len(before), len(after))]
+    except RecursionError:
+        pass
+    return problems
